@@ -403,6 +403,12 @@ def _alts(n: ast.AST) -> list[ast.AST]:
             out.append(ast.Constant(value=not n.value))
         elif isinstance(n.value, int):
             out += [ast.Constant(value=v) if v >= 0 else ast.UnaryOp(op=ast.USub(), operand=ast.Constant(value=-v)) for v in _INTS.get(n.value, [])]
+            if n.value in (2, 10, 0, 1):
+                out += [ast.Constant(value=float(n.value)), ast.Constant(value=n.value + 0.5)]      # the float of the same value, and one just beside it
+        elif isinstance(n.value, float):
+            out += [ast.Constant(value=n.value + 0.5), ast.Constant(value=n.value + 1.0)]
+            if n.value == int(n.value):
+                out.append(ast.Constant(value=int(n.value)))
     elif isinstance(n, ast.Compare):
         for i, op in enumerate(n.ops):
             for alt in _CMP.get(type(op), []):
@@ -485,8 +491,8 @@ class _Edit(ast.NodeTransformer):
 
 
 def variants(rule: Rule) -> list[Rule]:
-    if rule.rhs is not None:
-        return []                           # the message quotes a fragment only: no way to read the replacement of a different shape off it
+    # a rule whose replacement comes from the table (the message quotes a fragment or uses its own operand names): its
+    # neighbours are kept too, with the replacement read off the message where the quoted original unifies with the instance
     src = textwrap.dedent(rule.lhs)
     try:
         tree = ast.parse(src)
@@ -514,7 +520,7 @@ def variants(rule: Rule) -> list[Rule]:
             seen.add(key)
             subst = any(getattr(x, "_subst", False) for x in ast.walk(t2))
             out.append(Rule(rule.code, txt, rule.params, mode=rule.mode, setup=rule.setup, annot=rule.annot, cls=rule.cls, fs=rule.fs,
-                            note=f"variant of `{rule.lhs}`" + (" [one operand occurrence substituted]" if subst else "")))
+                            note=f"variant of `{rule.lhs}`" + (" [table rule]" if rule.rhs is not None else "") + (" [one operand occurrence substituted]" if subst else "")))
     return out
 
 
@@ -1059,6 +1065,12 @@ def run(ctx: Ctx) -> None:
     for r in OPTIONAL_RULES:
         if (r.code, norm(r.lhs), tuple(r.params.values())) not in have:
             ALL.append(r)
+    have = {(r.code, norm(r.lhs)) for r in ALL}
+    for r in OPTIONAL_RULES:
+        for v in variants(r):
+            if (v.code, norm(v.lhs)) not in have:
+                have.add((v.code, norm(v.lhs)))
+                ALL.append(v)
     td = Path(tempfile.mkdtemp(prefix="c01-"))
     try:
         # ---- one lint run over all rule instances
@@ -1115,6 +1127,8 @@ def run(ctx: Ctx) -> None:
                     ctx.count("compound:quoted-original-does-not-match-the-instance")
             if is_variant:
                 ctx.count("variant-flagged")
+            if rhs is not None and rhs.startswith("<<invalid>>") and "[table rule]" in r.note:
+                rhs, how = None, "the message quotes a fragment that is not standalone code"
             if rhs is None:
                 if is_variant:
                     variant_underivable.append(f"FURB{r.code}: {r.lhs!r}: {msg}")
